@@ -164,7 +164,7 @@ func genName(r *rand.Rand, rs *regSet, httpSafe bool) string {
 	case c == 4:
 		return reg[1:] // missing leading slash
 	case c == 5:
-		return pick(r, reg+"x", reg[:len(reg)-1], strings.ToUpper(reg), strings.ToLower(reg), reg+"/extra", reg+"/x/y", "/x"+reg[1:], reg+"2")
+		return pick(r, reg+"x", reg[:len(reg)-1], strings.ToUpper(reg), strings.ToLower(reg), reg+"/extra", reg+"/x/y", "/x"+reg[1:], reg+"2", "/."+reg[1:], "."+reg[1:], "/"+reg[1:strings.LastIndex(reg, "/")]+"./"+reg[strings.LastIndex(reg, "/")+1:])
 	case c == 6:
 		i := strings.LastIndex(reg, "/")
 		return pick(r, reg[:i], reg[:i]+"/Nope", "/nope.Svc"+reg[i:], "/"+reg[i+1:], reg[:i]+reg[i+1:])
